@@ -7,6 +7,9 @@ package c13
 
 import (
 	"encoding/hex"
+	"os"
+	"sort"
+	"time"
 
 	"verifh/mon"
 	"verifh/wl/reg"
@@ -74,7 +77,14 @@ func (r *runner) one(c *mon.Case, cf *caseFindings, t *tally, entry string, f fu
 	}
 }
 
+// profile (development aid, C13_PROFILE=1): wall time per entry point, reported as a note; never read by a verdict
+var profile = map[string]time.Duration{}
+
 func (r *runner) run(c *mon.Case, e *entry, ms []mutant) {
+	if os.Getenv("C13_PROFILE") != "" {
+		t0 := time.Now()
+		defer func() { profile[e.name] += time.Since(t0) }()
+	}
 	var cf caseFindings
 	var t tally
 	both := r.x.Thorough()
@@ -187,6 +197,21 @@ func sweep(x *mon.Ctx) {
 				c.End()
 			}
 		}
+	}
+	profileNote(x)
+}
+
+func profileNote(x *mon.Ctx) {
+	if len(profile) == 0 {
+		return
+	}
+	var ks []string
+	for k := range profile {
+		ks = append(ks, k)
+	}
+	sort.Slice(ks, func(i, j int) bool { return profile[ks[i]] > profile[ks[j]] })
+	for _, k := range ks {
+		x.Note("profile %8.2fs %s", profile[k].Seconds(), k)
 	}
 }
 
